@@ -546,9 +546,11 @@ package soyhtml
 //@ func funcIsNonnull
 //@   like renderFn
 //@   nosafety
+//@   ensures[nonnull-means-neither-null-nor-undefined;C01] typeis(result, data.Bool) && unbox(result, data.Bool) == !(typeis(v[0], data.Null) || typeis(v[0], data.Undefined))
 //@ func funcLength
 //@   like renderFn
 //@   nosafety
+//@   ensures[length-of-the-list;C01] typeis(v[0], data.List) ==> typeis(result, data.Int) && unbox(result, data.Int) == len(unbox(v[0], data.List))
 //@ func funcKeys
 //@   like renderFn
 //@   props C08 C09 C13
@@ -569,24 +571,37 @@ package soyhtml
 //@ func funcFloor
 //@   like renderFn
 //@   nosafety
+//@   ensures[floor-of-an-integer-is-itself;C01] typeis(v[0], data.Int) ==> result == v[0]
+//@   ensures[floor-is-an-integer;C01] typeis(v[0], data.Float) ==> typeis(result, data.Int)
 //@ func funcCeiling
 //@   like renderFn
 //@   nosafety
+//@   ensures[ceiling-of-an-integer-is-itself;C01] typeis(v[0], data.Int) ==> result == v[0]
+//@   ensures[ceiling-is-an-integer;C01] typeis(v[0], data.Float) ==> typeis(result, data.Int)
 //@ func funcMin
 //@   like renderFn
 //@   nosafety
+//@   ensures[min-of-integers;C01] typeis(v[0], data.Int) && typeis(v[1], data.Int) ==> typeis(result, data.Int) && unbox(result, data.Int) <= unbox(v[0], data.Int) && unbox(result, data.Int) <= unbox(v[1], data.Int) && (result == v[0] || result == v[1])
+//@   ensures[mixed-min-is-float;C01] (typeis(v[0], data.Float) || typeis(v[1], data.Float)) ==> typeis(result, data.Float)
 //@ func funcMax
 //@   like renderFn
 //@   nosafety
+//@   ensures[max-of-integers;C01] typeis(v[0], data.Int) && typeis(v[1], data.Int) ==> typeis(result, data.Int) && unbox(result, data.Int) >= unbox(v[0], data.Int) && unbox(result, data.Int) >= unbox(v[1], data.Int) && (result == v[0] || result == v[1])
+//@   ensures[mixed-max-is-float;C01] (typeis(v[0], data.Float) || typeis(v[1], data.Float)) ==> typeis(result, data.Float)
 //@ func funcRandomInt
 //@   like renderFn
 //@   nosafety
 //@ func funcStrContains
 //@   like renderFn
 //@   nosafety
+//@   ghost found bool = false
+//@   at call strings.Contains#0 assert[haystack-then-needle;C01] arg0 == unbox(v[0], data.String) && arg1 == unbox(v[1], data.String)
+//@   at call strings.Contains#0 after set found = res
+//@   ensures[result-of-strings-contains;C01] typeis(result, data.Bool) && unbox(result, data.Bool) == found
 //@ func funcHasData
 //@   like renderFn
 //@   nosafety
+//@   ensures[always-true;C01] typeis(result, data.Bool) && unbox(result, data.Bool)
 //@ func directiveNoAutoescape
 //@   like renderFn
 //@   nosafety
